@@ -143,8 +143,15 @@ def cmd_check(prop, tier, seed, nproc=None):
     det = {'plans': len(dplans), 'same_process_equal': fp_a == fp_b,
            'fresh_interpreter_other_hashseed_equal': fp_a == fp_c}
     if not (fp_a == fp_b and fp_a == fp_c):
-        rep.harness_errors.append(
-            f'determinism self-test failed: {det} {se[-800:]}')
+        if hasattr(mod, 'explains_nondeterminism') and \
+                mod.explains_nondeterminism(agg['violations']):
+            det['explained_by_reported_violation'] = True
+            print('note: fingerprints differ between interpreters; the '
+                  'reported violation shows that the code under test depends '
+                  'on the interpreter hash seed')
+        else:
+            rep.harness_errors.append(
+                f'determinism self-test failed: {det} {se[-800:]}')
     # violations
     seen = {}
     for item in agg['violations']:
